@@ -23,12 +23,12 @@ def qual(cls):
     return f"{cls.__module__}.{cls.__qualname__}"
 
 
-def canon(x, strict=False, _depth=0):
+def canon(x, strict=False, _depth=0, _onpath=None):
     """Class-qualified structural rendering. Two values are `same` iff their canon is equal.
 
     strict=True additionally distinguishes equal-but-differently-represented values
     (Decimal exponent, datetime fold) - used for history independence."""
-    if _depth > 400:
+    if _depth > 3000:
         return ("<deep>",)
     d = _depth + 1
     t = type(x)
@@ -71,25 +71,29 @@ def canon(x, strict=False, _depth=0):
         return (qual(t), x.days, x.seconds, x.microseconds)
     if isinstance(x, (int, float, str)):  # subclasses of primitives
         return (qual(t), repr(x))
+    _onpath = set() if _onpath is None else _onpath
+    if id(x) in _onpath:
+        return ("<cycle>",)
+    _onpath = _onpath | {id(x)}
     if dataclasses.is_dataclass(x) and not isinstance(x, type):
         out = []
         for f in dataclasses.fields(x):
             try:
-                out.append((f.name, canon(getattr(x, f.name), strict, d)))
+                out.append((f.name, canon(getattr(x, f.name), strict, d, _onpath)))
             except AttributeError:
                 out.append((f.name, ("<unset>",)))
         return ("dc", qual(t), tuple(out))
     if isinstance(x, tuple) and hasattr(t, "_fields"):
-        return ("nt", qual(t), tuple((n, canon(v, strict, d)) for n, v in zip(t._fields, x)))
+        return ("nt", qual(t), tuple((n, canon(v, strict, d, _onpath)) for n, v in zip(t._fields, x)))
     if isinstance(x, dict):
-        items = [(canon(k, strict, d), canon(v, strict, d)) for k, v in x.items()]
+        items = [(canon(k, strict, d, _onpath), canon(v, strict, d, _onpath)) for k, v in x.items()]
         if t is not collections.OrderedDict:
             items.sort(key=repr)
         return (qual(t) if t is not dict else "dict", tuple(items))
     if isinstance(x, (list, tuple, collections.deque)):
-        return (t.__name__ if t in (list, tuple) else qual(t), tuple(canon(v, strict, d) for v in x))
+        return (t.__name__ if t in (list, tuple) else qual(t), tuple(canon(v, strict, d, _onpath) for v in x))
     if isinstance(x, (set, frozenset)):
-        return (t.__name__, tuple(sorted((canon(v, strict, d) for v in x), key=repr)))
+        return (t.__name__, tuple(sorted((canon(v, strict, d, _onpath) for v in x), key=repr)))
     if isinstance(x, types.GeneratorType):
         return ("<generator>",)
     # plain / slots classes: public attributes
@@ -103,7 +107,7 @@ def canon(x, strict=False, _depth=0):
         out = []
         for n in names:
             try:
-                out.append((n, canon(getattr(x, n), strict, d)))
+                out.append((n, canon(getattr(x, n), strict, d, _onpath)))
             except AttributeError:
                 out.append((n, ("<unset>",)))
         return ("obj", qual(t), tuple(out))
@@ -234,26 +238,33 @@ def conforms(spec: Spec, r, _depth=0, closed=False) -> tuple[bool, str]:
 _PRIMS = (NoneType, bool, int, float, str)
 
 
-def json_plain(m, path="$", _depth=0):
-    """(ok, why). Exact builtin classes only; dict keys primitive; finite floats."""
+def json_plain(m, path="$", _depth=0, _onpath=None):
+    """(ok, why). Exact builtin classes only; dict keys primitive; acyclic."""
     t = type(m)
     if t in _PRIMS:
         return True, ""
     if _depth > 800:
         return True, ""
+    _onpath = set() if _onpath is None else _onpath
+    if id(m) in _onpath:
+        return False, f"{path}: container contains itself (cyclic output)"
     if t is list:
+        _onpath.add(id(m))
         for i, e in enumerate(m):
-            ok, why = json_plain(e, f"{path}[{i}]", _depth + 1)
+            ok, why = json_plain(e, f"{path}[{i}]", _depth + 1, _onpath)
             if not ok:
                 return ok, why
+        _onpath.discard(id(m))
         return True, ""
     if t is dict:
+        _onpath.add(id(m))
         for k, v in m.items():
             if type(k) not in _PRIMS:
                 return False, f"{path}: key {short(k, 60)} of class {qual(type(k))}"
-            ok, why = json_plain(v, f"{path}[{short(k, 30)}]", _depth + 1)
+            ok, why = json_plain(v, f"{path}[{short(k, 30)}]", _depth + 1, _onpath)
             if not ok:
                 return ok, why
+        _onpath.discard(id(m))
         return True, ""
     return False, f"{path}: {short(m, 60)} of class {qual(t)}"
 
